@@ -75,7 +75,7 @@ Section WrapSpec.
 
   (* state.inline_text(title, lineno) at fuel f: the title's nodes and the registries after it *)
   Definition den_title (f : nat) (h : shared) (title : str) (lineno : N) : res dres :=
-    den_nested env orc (den_tok env orc f) false h title lineno true 0.
+    den_nested env orc (den_tok env orc f) false 0 h title lineno true 0.
 
   (* The expected denotation of the fence token of  print_lines w X  when that token sits at
      line pos and the registries are h: one admonition node per layer (preceded by the option
